@@ -14,9 +14,10 @@ import vlib, vtables
 WITNESSES = ["W_NoAccept", "W_NoOnlyChain", "W_NoOnlyTime", "W_NoOnlyUsage", "W_NoOnlyPin", "W_NoOnlyName", "W_NoStricter",
              "W_NoSeveralAccept", "W_NoStreamAccept", "W_NoStreamOnlyName", "W_NoColonSrcAccept", "W_NoColonPrefixRefused",
              "W_NoPinnedThenUnpinned", "W_NoUnpinnedThenPinned", "W_NoTwoAlgs",
-             "W_NoExpiresWhileAlive", "W_NoBecomesValid"]
+             "W_NoExpiresWhileAlive", "W_NoBecomesValid", "W_NoLookupAfterReceptor", "W_NoLookupAfterTesthost"]
 # counter-example variants of the model (one constant each) and the invariant each of them must violate
-VARIANTS = {"KF_ColonSplit": "CodeWithinProp", "KF_DigestCachedAcrossCalls": "HistoryIndependent", "KF_TimeFrozenAtCreation": "ValidityJudgedAtHandshake"}
+VARIANTS = {"KF_ColonSplit": "CodeWithinProp", "KF_DigestCachedAcrossCalls": "HistoryIndependent", "KF_TimeFrozenAtCreation": "ValidityJudgedAtHandshake",
+            "KF_LookupMutatesStored": "LookupsIndependent"}
 CONDS = ["chain", "time", "usage", "pin", "name"]
 
 
@@ -42,7 +43,8 @@ def run(tier, seed, replay=None):
     ntable = sum(1 for x in recs if x["fam"] == "table")
     nseq = sum(1 for x in recs if x["fam"] == "seq")
     nclock = sum(1 for x in recs if x["fam"] == "clock")
-    nstream = len(recs) - ntable - nseq - nclock
+    nlookup = sum(1 for x in recs if x["fam"] == "lookup")
+    nstream = len(recs) - ntable - nseq - nclock - nlookup
     single = {c: sum(1 for x in recs if x["fam"] == "table" and x["only"] == c) for c in CONDS}
     if min(single.values()) == 0:
         raise vlib.Inconclusive("no single-failure vector for some condition: %s" % single)
@@ -52,6 +54,7 @@ def run(tier, seed, replay=None):
         vlib.write_ndjson(vectors, [vec])
         recs, ntable, nstream, nseq = [vec], int(vec["fam"] == "table"), int(vec["fam"] == "stream"), int(vec["fam"] == "seq")
         nclock = int(vec["fam"] == "clock")
+        nlookup = int(vec["fam"] == "lookup")
     vt = vlib.build_harness("vtab")
     mesh = 0 if (tier != "quick" or replay) else 64
     extra = 400 if tier == "quick" else 6000
@@ -70,6 +73,8 @@ def run(tier, seed, replay=None):
     if c.get("clock_selected", 0) != want_clock or c.get("vectors_clock", 0) < (3 * want_clock) // 4:
         raise vlib.Inconclusive("only %d of %d time-line vectors could be run within their ticks (%d selected)" %
                                 (c.get("vectors_clock", 0), want_clock, c.get("clock_selected", 0)))
+    if c.get("vectors_lookup", 0) != nlookup:
+        raise vlib.Inconclusive("harness evaluated %d of %d lookup vectors" % (c.get("vectors_lookup", 0), nlookup))
     for viol in res["violations"]:
         v.violation(viol["sig"], viol["what"], viol["replay"])
     if not replay:
@@ -86,6 +91,9 @@ def run(tier, seed, replay=None):
             for cls in ("valid_at_creation_expired_at_handshake", "notyet_at_creation_valid_at_handshake"):
                 if c.get("clock_%s_%s" % (cls, layer), 0) == 0 and not res["violations"]:
                     raise vlib.Inconclusive("no %s observation at layer %s: the time-line part is vacuous" % (cls, layer))
+        for layer in ("installed-lookup", "handshake-lookup"):
+            if (c.get("refusal_after_receptor_lookup_" + layer, 0) == 0 or c.get("accept_" + layer, 0) == 0) and not res["violations"]:
+                raise vlib.Inconclusive("no refusal after a receptor-mode lookup / no acceptance at layer %s: the lookup part is vacuous" % layer)
         for cond in CONDS:
             if c.get("only_%s_rvf" % cond, 0) == 0:
                 raise vlib.Inconclusive("condition %s was never the only reason for a refusal" % cond)
@@ -101,10 +109,12 @@ def run(tier, seed, replay=None):
                 "Prepare*Config+GetClientTLSConfig, and (all vectors with at most one failing condition plus a seeded sample) by a crypto/tls "
                 "handshake; stream vectors are dialled on a real mesh; every history vector is played on one ReceptorVerifyFunc instance, on one configuration from "
                 "Prepare*Config (+GetClientTLSConfig / GetServerTLSConfig per connection) and through handshakes sharing one configuration, each call compared with the table; time-line vectors (verifier created at one tick, handshakes at later ticks, certificate windows with "
-                "second-granular bounds between the ticks) are run in real time on kept verifier/configuration objects. distinct = distinct (vector, name variant, encoder) triples evaluated "
-                "plus stream vectors dialled plus history vectors plus time-line vectors run" % cfg,
+                "second-granular bounds between the ticks) are run in real time on kept verifier/configuration objects; lookup vectors store ONE named tls-client configuration on one node and look it up "
+                "repeatedly (testhost validation, receptor mode, DNS mode), presenting five certificate classes to every configuration returned. distinct = distinct (vector, name variant, encoder) triples evaluated "
+                "plus stream vectors dialled plus history vectors plus time-line vectors run plus lookup vectors" % cfg,
         "samples": res["samples"][:10], "exhaustive": True,
-        "vectors": len(recs), "vectors_table": ntable, "vectors_stream": nstream, "vectors_seq": nseq, "vectors_clock": nclock, "clock_vectors_run": c.get("vectors_clock", 0), "clock_wall_ms": c.get("clock_wall_ms", 0),
+        "vectors": len(recs), "vectors_table": ntable, "vectors_stream": nstream, "vectors_seq": nseq, "vectors_clock": nclock, "vectors_lookup": nlookup, "lookup_calls": c.get("lookup_calls", 0),
+        "lookup_refusals_after_receptor_lookup": {l: c.get("refusal_after_receptor_lookup_" + l, 0) for l in ("installed-lookup", "handshake-lookup")}, "clock_vectors_run": c.get("vectors_clock", 0), "clock_wall_ms": c.get("clock_wall_ms", 0),
         "clock_observations": {k[6:]: n for k, n in c.items() if k.startswith("clock_valid_at_creation_expired") or k.startswith("clock_notyet_at_creation_valid")}, "seq_calls": c.get("seq_calls", 0),
         "history_observations": {k: n for k, n in c.items() if k.startswith("pinned_then_unpinned_refused_") or k.startswith("unpinned_then_pinned_accepted_")},
         "stream_vectors_dialled": c.get("vectors_stream", 0),
